@@ -94,8 +94,9 @@ func (s *Schema) Names() []string {
 }
 
 type DocOpts struct {
-	Repeat bool // allow repeated field names within a document
-	Small  bool // at most one field instance with one term (jumbo batches)
+	Repeat    bool // allow repeated field names within a document
+	Small     bool // at most one field instance with one term (jumbo batches)
+	BigStored bool // stored values of 6-20 KiB: a 128-document stored block exceeds 1 MiB uncompressed
 }
 
 var storedShapes = []int{0, 0, 1, 2, 3, 5, 8, 12, 40, 300}
@@ -133,6 +134,10 @@ func GenDoc(r *rand.Rand, sch *Schema, id string, o DocOpts) *model.MDoc {
 			if f.St {
 				n := storedShapes[r.Intn(len(storedShapes))]
 				f.V = []byte(strings.Repeat("v", n))
+				if o.BigStored && r.Intn(2) == 0 {
+					f.V = make([]byte, 6000+r.Intn(14000)) // poorly compressible
+					r.Read(f.V)
+				}
 				if r.Intn(3) == 0 {
 					f.V = append(f.V, []byte(id)...)
 				}
